@@ -136,6 +136,30 @@ impl<'a> IExec<'a> {
                 enc_deploy(inner_tag, &idb, NAMES[meta.name as usize % NAMES.len()].as_bytes(), SYMS[meta.symbol as usize % SYMS.len()].as_bytes(), w(decimals as u128), &mb)
             }
         };
+        // ---- 1b. corruption of the nested message before it is wrapped (the wrapper stays canonical)
+        let mut inner = inner;
+        match dev {
+            Dev::InnerTrailing(k) => {
+                inner.extend(std::iter::repeat(0u8).take(32 * (1 + *k as usize % 3)));
+                ctx.count("F6.inner_trailing_word");
+            }
+            Dev::InnerDirtyWord(wd) => {
+                // set a high-order byte of one of the static head words (type, decimals / amount)
+                let idx = [0usize, 4][*wd as usize % 2] * 32;
+                if inner.len() > idx + 32 {
+                    inner[idx + 29] ^= 0x01;
+                }
+                ctx.count("F6.inner_dirty_static_word");
+            }
+            Dev::InnerDirtyPadding => {
+                let l = inner.len();
+                if l > 0 {
+                    inner[l - 1] ^= 0x01;
+                }
+                ctx.count("F6.inner_dirty_padding");
+            }
+            _ => {}
+        }
         // ---- 2. wrapper
         let outer_tag = match dev {
             Dev::OuterTypeSend => w(3),
@@ -183,7 +207,7 @@ impl<'a> IExec<'a> {
         };
         if let Some(m) = &decoded {
             let re = m.encode();
-            if !ctx.check(re == payload, &["C10"], "codec/accepted-non-canonical-encoding", || {
+            if !ctx.check(re == payload, &["C10", "C04"], "codec/accepted-non-canonical-encoding", || {
                 format!("decoder accepted bytes that are not the canonical encoding of what it returned: input {} re-encoded {}", hex::encode(&payload), hex::encode(&re))
             }) {
                 return;
@@ -352,7 +376,13 @@ impl<'a> IExec<'a> {
         if !reasons.is_empty() {
             let only_hub_addr = reasons == vec!["source-address-not-hub-address"];
             let cls = if only_hub_addr { "its.execute/source-address-not-hub-address".to_string() } else { format!("inbound/acted-on:{}", reasons[0]) };
-            match ctx.expect(res.out.is_err(), &["C04"], &cls, || format!("delivery that must be refused ({}) was executed", label)) {
+            let tags: &[&'static str] = match reasons[0] {
+                "token-id-already-registered" | "unrepresentable-metadata" | "undecodable-minter" => &["C04", "C11"],
+                "undecodable-or-unsupported-payload" | "not-a-receive-from-hub-wrapper" => &["C04", "C10"],
+                "insufficient-custody" | "unknown-token" | "undecodable-recipient" => &["C04", "C05"],
+                _ => &["C04"],
+            };
+            match ctx.expect(res.out.is_err(), tags, &cls, || format!("delivery that must be refused ({}) was executed", label)) {
                 Verdict::Pass => {
                     ctx.check(res.unchanged_full() && res.events.is_empty(), &["C04"], "inbound/refused-delivery-changed-state", || "a refused delivery changed the ledger (balances, registry or the gateway's approval record)".into());
                     self.gw_status_check(ctx, &del.source_chain, &del.message_id, &["C04"]);
@@ -491,5 +521,8 @@ pub fn dev_name(d: &Dev) -> &'static str {
         Dev::DirtyPadding => "dirty_padding",
         Dev::OffsetEdit(_) => "offset_edit",
         Dev::DeliverTwice => "deliver_twice",
+        Dev::InnerTrailing(_) => "inner_trailing",
+        Dev::InnerDirtyWord(_) => "inner_dirty_word",
+        Dev::InnerDirtyPadding => "inner_dirty_padding",
     }
 }
